@@ -14,6 +14,9 @@ CHECKS = {
  'C05': ('for every v-model / v-models skeleton within the bounds (16 hosts incl. input with static / dynamic / braces-constant / spread-supplied type, select, textarea, other element, component; 16 spellings incl. suffix modifiers, v-model:arg, array forms with string or computed argument and modifier lists; identifier/member/index targets; co-occurring attributes; v-models lists vs the explicit v-model sequence in the same module) Z3 shows on every path that the emitted binding is the one the statement describes and that the generated listener is `$event => (target) = $event`; one fixture-locked deviation is a known finding', '4 C05'),
  'C12': ('relational: a stride sample of the C01/C03/C04/C05/C13 skeleton spaces plus all nested component trees is executed twice on the same path condition (optimize=false / true, other options symbolic and shared); Z3 shows on every path that the two outputs are equal once hint arguments and `_` keys are erased, that optimize=false emits no hints, and that the imported helpers are the same', '4 C12'),
  'C15': ('for every module skeleton within the bounds (comment texts fully symbolic over Unicode up to 7 (quick) / 9 (thorough) code points plus 16 candidate annotation texts; block/JSDoc/line comments at the file head, before a later statement and inside a function; pragma option absent/present) Z3 shows on every path that every vnode call in the module (top level, nested, inside a function) uses exactly the name the statement derives from the comments/option, and that createVNode is imported iff used', '4 C15'),
+ 'C16': ('for every (prop map, encoding) pair within the bounds (7 maps of <=3 members incl. quoted/hyphenated keys, methods, getters, optional flags; 27 encodings: inline, alias chains, interfaces, merged, extends chains, intersections, parentheses, exported, Partial/Required/Pick/Omit incl. alias key unions, indexed access, declarations after the call, unresolvable types; top-level and function-local shadowing scopes) the real resolveType MIR is executed on the whole module and the emitted props option is shown to have exactly the keys and required flags of the map (or an error diagnostic for unresolvable types); declarations after the call are a known finding', '4 C16'),
+ 'C18': ('for every default object within the bounds (25 static member forms singly and in pairs plus a 7-member object; 8 dynamic forms; arrow and function setups; 10 declared props incl. Function-typed ones) the emitted `default` entries are run through Vue\'s resolution rule (factories are called unless the type is exactly Function) and shown equal to the written value, dynamic defaults shown to go through mergeDefaults(props, <written expression>); one deviation is a known finding', '4 C18'),
+ 'C19': ('for every (event set, encoding) pair within the bounds (4 sets incl. names with : and -; 17 encodings: function type with literal union, union of function types, call-signature literals/interfaces/aliases, extends, intersection, property syntax, literal-union alias chains, exported, local shadowing, function-expression setup; no-annotation forms) the emitted `emits` option is shown to be exactly the set (absent without SetupContext<E>); declarations after the call are a known finding', '4 C19'),
  'C17': ('for every prop type within the bounds (95 atoms incl. all keyword/literal/function/array/tuple/type-literal/built-in-class/utility forms; unions of two atoms, intersections, parentheses, NonNullable, array/tuple/property indexing, optional props; type-reference names fully symbolic up to 7 (quick) / 10 (thorough) characters with and without type arguments) Z3 shows on every path of resolveType that the emitted constructor list accepts, under Vue\'s validation rules, every kind of JS value that inhabits the declared type; two deviations (one fixture-locked, one not small) are known findings', '4 C17'),
  'C20': ('for every call skeleton within the bounds (11 binding provenances of `defineComponent` incl. a fully symbolic import source, 6 setup-argument forms, 21 options-argument forms, 10 declaration contexts, resolveType symbolic) Z3 shows on every path that non-eligible calls are left exactly as written and that, for eligible ones, the abstract value of every option key of the resulting options expression is the user\'s wherever the user (or an expression spread into the result) supplies it', '4 C20'),
  'C13': ('for every attribute multiset within the bounds (kind x name table incl. symbolic attribute names, spreads, v-model with computed argument, directives, v-html/v-text, on objects; element and component hosts; nested component trees for slot flags) with optimize on, Z3 shows on every path that flag / dynamic-prop list / slot `_` satisfy each clause of the statement, evaluated on the emitted props', '4 C13'),
